@@ -53,6 +53,10 @@ func vpC19_ModInverse() {
 	w := vpParam("width", 6)
 	lim := new(big.Int).Lsh(big.NewInt(1), uint(w))
 	n := vpBigRange("n", big.NewInt(2), lim)
+	if vpParam("splitn", 0) == 1 {
+		// case split on the modulus: one concrete n per path, a stays symbolic
+		n = big.NewInt(int64(2 + vpChoose("nc", (1<<w)-1)))
+	}
 	a := vpBigRange("a", big.NewInt(1), lim)
 	vpAssume(a.Cmp(n) < 0)
 	ia, ok := ModInverse(a, n)
